@@ -959,6 +959,7 @@ func runNyctAlerts(c *Ctx) {
 		return
 	}
 	runAlertStateConfinement(c, ua)
+	runElevatorStepFirst(c, ua, ue)
 	// Y1: alerts are dropped only with the option set and for an entity whose Mercury priority is one of the three
 	// timetabled no-service priorities -- the set may be a map literal or a predicate function
 	var wantPrio []string
@@ -2129,6 +2130,7 @@ func descriptorKeptIntact(c *Ctx, setter *ssa.Function) (string, int) {
 	mutators := map[string]bool{"Merge": true, "Reset": true, "Unmarshal": true, "UnmarshalMerge": true, "SetExtension": true, "ClearExtension": true, "UnmarshalText": true, "UnmarshalJSON": true}
 	bad := ""
 	nst := 0
+	storeBlocks := map[*ssa.BasicBlock]bool{}
 	seen := map[ssa.Value]bool{}
 	var follow func(v ssa.Value, d int)
 	// returnsAlias: the module helper returns, on some path, the given parameter
@@ -2143,6 +2145,9 @@ func descriptorKeptIntact(c *Ctx, setter *ssa.Function) (string, int) {
 				if x.Val == v {
 					if fa, ok := x.Addr.(*ssa.FieldAddr); ok && isDesc(deref(fa.Type())) && fieldName(fa.X.Type(), fa.Field) == "Vehicle" {
 						nst++
+						if x.Block().Parent() == setter {
+							storeBlocks[x.Block()] = true
+						}
 					}
 				}
 			case *ssa.FieldAddr:
@@ -2172,7 +2177,11 @@ func descriptorKeptIntact(c *Ctx, setter *ssa.Function) (string, int) {
 				}
 				if cal != nil && p.isModuleFn(cal) && len(cal.Blocks) > 0 && !strings.HasSuffix(fnPkgPath(cal), "/proto") {
 					if argIdx < len(cal.Params) {
+						before := nst
 						follow(cal.Params[argIdx], d+1)
+						if nst > before && x.Block().Parent() == setter && len(dominatingConds(cal.Blocks[0])) == 0 {
+							storeBlocks[x.Block()] = true // approximated: the helper stores it somewhere
+						}
 						// what the helper returns may be the descriptor again
 						for _, blk := range cal.Blocks {
 							if ret, ok := blk.Instrs[len(blk.Instrs)-1].(*ssa.Return); ok {
@@ -2197,6 +2206,43 @@ func descriptorKeptIntact(c *Ctx, setter *ssa.Function) (string, int) {
 	for _, prm := range setter.Params {
 		if isDesc(prm.Type()) {
 			follow(prm, 0)
+		}
+	}
+	// every kind of entity gets it, on every path: the two entities of one trip (trip update, vehicle position) must
+	// name the same vehicle, so neither may keep a descriptor of its own
+	if bad == "" && nst > 0 {
+		var starts []*ssa.BasicBlock
+		var kinds []string
+		for _, blk := range setter.Blocks {
+			iff, ok := blk.Instrs[len(blk.Instrs)-1].(*ssa.If)
+			if !ok {
+				continue
+			}
+			if ex, ok := iff.Cond.(*ssa.Extract); ok && ex.Index == 1 {
+				if ta, ok := ex.Tuple.(*ssa.TypeAssert); ok && ta.CommaOk {
+					starts = append(starts, blk.Succs[0])
+					kinds = append(kinds, shortType(ta.AssertedType))
+				}
+			}
+		}
+		if len(starts) == 0 {
+			starts, kinds = []*ssa.BasicBlock{setter.Blocks[0]}, []string{"entity"}
+		}
+		for i, st := range starts {
+			seenB := map[*ssa.BasicBlock]bool{}
+			work := []*ssa.BasicBlock{st}
+			for len(work) > 0 && bad == "" {
+				cur := work[len(work)-1]
+				work = work[:len(work)-1]
+				if seenB[cur] || storeBlocks[cur] {
+					continue
+				}
+				seenB[cur] = true
+				if _, isRet := cur.Instrs[len(cur.Instrs)-1].(*ssa.Return); isRet {
+					bad = "for a " + kinds[i] + " there is a path to " + p.ipos(cur.Instrs[len(cur.Instrs)-1]) + " on which the descriptor is not put on the entity (the entity keeps a descriptor of its own, so the two entities of one trip name different vehicles)"
+				}
+				work = append(work, cur.Succs...)
+			}
 		}
 	}
 	return bad, nst
@@ -2556,3 +2602,153 @@ const nyctTripIDPattern = `^([0-9]{6})_([[:alnum:]]{1,2})..([SN])([[:alnum:]]*)$
 
 // elevatorIDPattern: ids of elevator alerts (oracle): <3-character station><N|S or nothing>#EL<elevator>.
 const elevatorIDPattern = "([[:alnum:]]{3}?)([SN]?)#EL(.*)"
+
+// runSameVehicleForBothEntities (C07): an extension that derives a vehicle descriptor for an entity installs it on
+// every kind of entity and on every path, unmodified: the trip update and the vehicle position of one trip are merged
+// under the vehicle identifier each of them carries, so both must carry the same one.
+func runSameVehicleForBothEntities(c *Ctx) {
+	p := c.P
+	n := 0
+	for _, f := range p.ModFns {
+		if !strings.Contains(fnPkgPath(f), "/extensions/") || len(f.Blocks) == 0 || f.Synthetic != "" {
+			continue
+		}
+		has := false
+		for _, prm := range f.Params {
+			if shortType(prm.Type()) == "*proto.VehicleDescriptor" {
+				has = true
+			}
+		}
+		if !has {
+			continue
+		}
+		bad, nst := descriptorKeptIntact(c, f)
+		if nst == 0 {
+			continue // not a setter
+		}
+		n++
+		c.Check(bad == "", "EXTV", shortName(f), "both entities of a trip get the same derived vehicle descriptor", p.pos(f.Pos()), fmt.Sprintf("%d stores of the descriptor parameter into the entity's vehicle field, one on every path of every entity kind; the descriptor is not changed on the way", nst), "the vehicle under which the entity is merged is not the derived one for every entity: "+bad)
+	}
+	if n == 0 {
+		c.Undecided("EXTV", "extensions", "descriptor setter", "-", "no function of the extensions puts a derived *proto.VehicleDescriptor on an entity: the place where entities get their vehicle identifier was not found")
+	}
+}
+
+// runElevatorStepFirst: the elevator step replaces the informed entities of an elevator alert by plain stop selectors;
+// everything else UpdateAlert derives from the informed entities (the Mercury priorities that decide effect and
+// dropping) must read them after that step, or on a path that does not lead to it. A read taken before the step sees
+// the published selectors of an elevator alert, whose priorities then overwrite the accessibility effect or drop the
+// whole group.
+func runElevatorStepFirst(c *Ctx, ua, ue *ssa.Function) {
+	p := c.P
+	readsEntities := map[*ssa.Function]int{} // 0 unknown, 1 yes, 2 no
+	var reads func(g *ssa.Function, d int) bool
+	isRead := func(in ssa.Instruction) bool {
+		switch x := in.(type) {
+		case *ssa.Call:
+			if strings.HasSuffix(calleeName(x), "proto.Alert).GetInformedEntity") {
+				return true
+			}
+		case *ssa.UnOp:
+			if fa, ok := x.X.(*ssa.FieldAddr); ok && x.Op == token.MUL && shortType(fa.X.Type()) == "*proto.Alert" && fieldName(fa.X.Type(), fa.Field) == "InformedEntity" {
+				return true
+			}
+		}
+		return false
+	}
+	takesAlert := func(call *ssa.Call) bool {
+		for _, a := range call.Call.Args {
+			if shortType(a.Type()) == "*proto.Alert" {
+				return true
+			}
+		}
+		return false
+	}
+	reads = func(g *ssa.Function, d int) bool {
+		if g == nil || len(g.Blocks) == 0 || !p.isModuleFn(g) || d > 3 {
+			return false
+		}
+		if v := readsEntities[g]; v != 0 {
+			return v == 1
+		}
+		readsEntities[g] = 2
+		for _, blk := range g.Blocks {
+			for _, in := range blk.Instrs {
+				if isRead(in) {
+					readsEntities[g] = 1
+					return true
+				}
+				if call, ok := in.(*ssa.Call); ok && takesAlert(call) && reads(staticCallee(call), d+1) {
+					readsEntities[g] = 1
+					return true
+				}
+			}
+		}
+		return false
+	}
+	var reachesStep func(g *ssa.Function, d int) bool
+	reachesStep = func(g *ssa.Function, d int) bool {
+		if g == ue {
+			return true
+		}
+		if g == nil || len(g.Blocks) == 0 || !p.isModuleFn(g) || d > 2 {
+			return false
+		}
+		for _, blk := range g.Blocks {
+			for _, in := range blk.Instrs {
+				if call, ok := in.(*ssa.Call); ok && reachesStep(staticCallee(call), d+1) {
+					return true
+				}
+			}
+		}
+		return false
+	}
+	var steps, rds []ssa.Instruction
+	for _, blk := range ua.Blocks {
+		for _, in := range blk.Instrs {
+			if call, ok := in.(*ssa.Call); ok {
+				if reachesStep(staticCallee(call), 0) {
+					steps = append(steps, in)
+					continue
+				}
+				if isRead(in) || (takesAlert(call) && reads(staticCallee(call), 0)) {
+					rds = append(rds, in)
+				}
+				continue
+			}
+			if isRead(in) {
+				rds = append(rds, in)
+			}
+		}
+	}
+	if len(steps) == 0 {
+		return // reported by the rules that need the step
+	}
+	before := func(a, b ssa.Instruction) bool {
+		if a.Block() == b.Block() {
+			for _, in := range a.Block().Instrs {
+				if in == a {
+					return true
+				}
+				if in == b {
+					return false
+				}
+			}
+		}
+		return canReach(a.Block(), b.Block())
+	}
+	for _, r := range rds {
+		bad := ""
+		for _, s := range steps {
+			if before(r, s) {
+				bad = p.ipos(s)
+			}
+		}
+		key := "informed entities are read after the elevator step"
+		if bad != "" {
+			c.Violated("ALRT", shortName(ua), key, p.ipos(r), "the alert's informed entities are read before the elevator step at "+bad+" replaces them: for an elevator alert the Mercury priorities of the published selectors then decide its effect (instead of accessibility issue) or drop the whole group")
+		} else {
+			c.Proved("ALRT", shortName(ua), key, p.ipos(r), "the read cannot be followed by the elevator step")
+		}
+	}
+}
